@@ -227,7 +227,8 @@ def rewrite_after_edit(ctx, cases):
                 ec["limbs"][0] = [ec["limbs"][0][1], ec["limbs"][0][0]]; comp.limbs[0] = (ec["limbs"][0][0], ec["limbs"][0][1])
             if ec["colors"]:
                 ec["colors"][0] = [(ec["colors"][0][0] + 1) % 65536, ec["colors"][0][1], ec["colors"][0][2]]; comp.colors[0] = tuple(ec["colors"][0])
-        if idx % 3 == 0 and all(pc.unhx(c["format"]) in ("XYC", "XYZC") for c in eh["components"]):
+        toggled = [("XYZC" if pc.unhx(c["format"]) == "XYC" else "XYC") for c in eh["components"]]
+        if idx % 3 == 0 and all(pc.unhx(c["format"]) in ("XYC", "XYZC") for c in eh["components"]) and max(len(f) for f in toggled) - 1 != case["body"]["dims"]:
             # … or the edit changes the number of coordinate dimensions under an unchanged body: the pose is no longer representable and the writer has to say so
             for comp in pose.header.components:
                 comp.format = "XYZC" if comp.format == "XYC" else "XYC"
